@@ -41,7 +41,7 @@ def _reduce(vals, method):
     return {'first': lambda: a[0], 'mean': lambda: a.mean(), 'median': lambda: np.median(a), 'min': lambda: a.min(), 'max': lambda: a.max()}[method]()
 
 
-def write_read(nframes: int, m1: bool, m2: bool, m3: bool, bogus: bool, width: int, dec: int, red: int, v0: int, v1: int, m4: bool = False) -> bool:
+def write_read(nframes: int, m1: bool, m2: bool, m3: bool, bogus: bool, width: int, dec: int, red: int, v0: int, v1: int, m4: bool = False, incr: bool = False) -> bool:
     """
     pre: 1 <= nframes <= 2 and 4 <= width <= 16 and 1 <= dec <= 4 and 0 <= red <= 4
     pre: 0 <= v0 <= 7 and 0 <= v1 <= 7
@@ -50,12 +50,12 @@ def write_read(nframes: int, m1: bool, m2: bool, m3: bool, bogus: bool, width: i
     """
     nframes, width, dec, red = mark.pick(nframes, 1, 2), mark.pick(width, 4, 16), mark.pick(dec, 1, 4), mark.pick(red, 0, 4)
     v0, v1 = mark.pick(v0, 0, 7), mark.pick(v1, 0, 7)
-    m1, m2, m3, bogus, m4 = mark.pickb(m1), mark.pickb(m2), mark.pickb(m3), mark.pickb(bogus), mark.pickb(m4)
+    m1, m2, m3, bogus, m4, incr = mark.pickb(m1), mark.pickb(m2), mark.pickb(m3), mark.pickb(bogus), mark.pickb(m4), mark.pickb(incr)
     with mark.untraced():
-        return _write_read(nframes, m1, m2, m3, bogus, width, dec, red, v0, v1, m4)
+        return _write_read(nframes, m1, m2, m3, bogus, width, dec, red, v0, v1, m4, incr)
 
 
-def write_read_q(nframes: int, m1: bool, m2: bool, m3: bool, bogus: bool, width: int, dec: int, red: int, v0: int, m4: bool = False) -> bool:
+def write_read_q(nframes: int, m1: bool, m2: bool, m3: bool, bogus: bool, width: int, dec: int, red: int, v0: int, m4: bool = False, incr: bool = False) -> bool:
     """
     pre: 1 <= nframes <= 2 and width in (4, 8, 16) and dec in (1, 3) and 0 <= red <= 4
     pre: 0 <= v0 <= 7
@@ -64,12 +64,12 @@ def write_read_q(nframes: int, m1: bool, m2: bool, m3: bool, bogus: bool, width:
     """
     nframes, width, dec, red = mark.pick(nframes, 1, 2), mark.pick_from(width, (4, 8, 16)), mark.pick_from(dec, (1, 3)), mark.pick(red, 0, 4)
     v0 = mark.pick(v0, 0, 7)
-    m1, m2, m3, bogus, m4 = mark.pickb(m1), mark.pickb(m2), mark.pickb(m3), mark.pickb(bogus), mark.pickb(m4)
+    m1, m2, m3, bogus, m4, incr = mark.pickb(m1), mark.pickb(m2), mark.pickb(m3), mark.pickb(bogus), mark.pickb(m4), mark.pickb(incr)
     with mark.untraced():
-        return _write_read(nframes, m1, m2, m3, bogus, width, dec, red, v0, (v0 * 3 + 1) % 8, m4)
+        return _write_read(nframes, m1, m2, m3, bogus, width, dec, red, v0, (v0 * 3 + 1) % 8, m4, incr)
 
 
-def _write_read(nframes, m1, m2, m3, bogus, width, dec, red, v0, v1, m4=False):
+def _write_read(nframes, m1, m2, m3, bogus, width, dec, red, v0, v1, m4=False, incr=False):
     import numpy as np
     method = ['first', 'mean', 'median', 'min', 'max'][red]
     fa = _frame_array(nframes, v0, v1)
@@ -77,7 +77,13 @@ def _write_read(nframes, m1, m2, m3, bogus, width, dec, red, v0, v1, m4=False):
     if bogus:
         subset.add('NOSUCH')
     out = io.StringIO()
-    WriteLAS.write_curve_and_array_section_to_las(fa, nframes, method, Slice.Slice(), set(subset), width, '.%df' % dec, out)
+    if incr:
+        # the documented incremental use: the three writers are called one after the other, each with its own copy of the requested set
+        WriteLAS.write_curve_section_to_las(fa, set(subset), out)
+        WriteLAS.write_array_section_header_to_las(fa, nframes, method, Slice.Slice(), set(subset), width, out)
+        WriteLAS.write_array_section_data_to_las(fa, method, set(subset), width, '.%df' % dec, out)
+    else:
+        WriteLAS.write_curve_and_array_section_to_las(fa, nframes, method, Slice.Slice(), set(subset), width, '.%df' % dec, out)
     text = out.getvalue()
     mark.hit()
     # the channels that must be listed: the first plus the requested ones (all when nothing is requested)
